@@ -80,7 +80,7 @@ theorem sg_init_sinv {s s3 : St} (w : WFS s) (hbin : binned s.h = []) {tbase tsi
   · rw [hents]
     simp only [shapeOk, List.all_cons, List.all_nil, Bool.and_true, Bool.and_eq_true, Bool.or_eq_true,
       decide_eq_true_eq]
-    exact ⟨Or.inr ⟨⟨by omega, by omega⟩, by omega⟩, Or.inr ⟨⟨by omega, by omega⟩, by omega⟩⟩
+    exact ⟨Or.inr ⟨⟨by omega, by omega⟩, by omega⟩, Or.inr ⟨⟨by omega, trivial⟩, by omega⟩⟩
   · rw [hents, hsegs]
     simp only [List.all_cons, List.all_nil, List.any_cons, List.any_nil, inSeg, Bool.and_true, Bool.or_false,
       Bool.and_eq_true, decide_eq_true_eq]
@@ -94,7 +94,7 @@ theorem sg_init_sinv {s s3 : St} (w : WFS s) (hbin : binned s.h = []) {tbase tsi
       rw [inSeg_iff]; simp only; omega
     simp only [List.all_cons, List.all_nil, Bool.and_true, segEnts, List.filter, h1, h2, tiles, isTrailerEnd,
       Bool.and_eq_true, Bool.or_eq_true, decide_eq_true_eq]
-    omega
+    sg_omega
   · rw [hents, hsegs, htop]
     have h1 : inSeg { base := tbase, size := tsize, recAt := 0 }
         { addr := tbase, size := tsize - 80, cin := false, pin := true, pfoot := 0 } = true := by
@@ -122,12 +122,12 @@ theorem sg_init_sinv {s s3 : St} (w : WFS s) (hbin : binned s.h = []) {tbase tsi
     simp only [findEnt, if_true, top_foot_size_eq]
     rw [if_neg (by omega)]
     simp only [if_true, isFree, Bool.and_eq_true, decide_eq_true_eq, Bool.not_eq_true', Bool.not_false]
-    omega
+    sg_omega
   · unfold segsOk
     rw [hsegs]
     simp only [segsDisjoint, List.all_nil, List.all_cons, Bool.and_true, Bool.and_eq_true, decide_eq_true_eq,
       top_foot_size_eq]
-    omega
+    sg_omega
   · intro g hg hne
     rw [hsegs, List.mem_singleton] at hg
     subst hg; exact absurd rfl hne
@@ -139,5 +139,143 @@ theorem sg_init_sinv {s s3 : St} (w : WFS s) (hbin : binned s.h = []) {tbase tsi
   · intro g hg hne
     rw [hsegs, List.mem_singleton] at hg
     subst hg; exact absurd rfl hne
+
+/-- the state `sys_alloc_place` runs on: `s` after `popM` and the footprint update -/
+structure SgPlace (s s0 : St) : Prop where
+  h : s0.h = s.h
+  segs : s0.segs = s.segs
+  la : s0.least_addr = s.least_addr
+
+/-- what is known about the fresh mapping -/
+structure SgFresh (s : St) (tbase tsize : Nat) : Prop where
+  fresh : OsFresh s tbase tsize
+  page : tbase % 4096 = 0
+  gran : tsize % 65536 = 0
+
+theorem sg_place_init {s s0 : St} (hi : SInv s) (hp : SgPlace s s0) {tbase tsize nb : Nat} (hf : SgFresh s tbase tsize)
+    (hsz : 96 ≤ tsize) (ht0 : s.h.top = 0) {r : Sum St (St × Nat)}
+    (h : sys_alloc_place s0 tbase tsize nb = .ok r) : ∃ s1, r = .inl s1 ∧ SInv s1 ∧ SameUsers s s1 := by
+  obtain ⟨hnil, hents, hdv, hdvs, hbin⟩ := sg_empty_of_top0 hi.wfs ht0
+  obtain ⟨_, hpos, hend, _⟩ := hf.fresh
+  unfold sys_alloc_place at h
+  dsimp only at h
+  rw [if_pos (by rw [hp.h]; exact ht0)] at h
+  simp only [top_foot_size_eq] at h
+  msimp at h
+  obtain ⟨_, _, _, _, s3, hinit, hr⟩ := h
+  obtain ⟨h1, h2, e1, e2, hs3⟩ := sg_init_top_ok hinit (by have := hf.page; omega) (by omega)
+  have r1 := writeHead_window_ok e1 (pre := []) (ms := []) (post := [])
+    (by show s0.h.ents = _; rw [hp.h, hents]; rfl) (by simp) (by simp) (by simp)
+  have hpf1 : pfootAt s0.h.ents tbase = 0 := pfootAt_none (by rw [hp.h, hents]; rfl)
+  dsimp only at r1
+  rw [hpf1] at r1
+  subst r1
+  have r2 := writeHead_window_ok e2
+    (pre := [{ addr := tbase, size := tsize - 80, cin := false, pin := true, pfoot := 0 }]) (ms := []) (post := [])
+    (by simp) (by simp; omega) (by simp) (by simp)
+  have hpf2 : pfootAt [({ addr := tbase, size := tsize - 80, cin := false, pin := true, pfoot := 0 } : Ent)]
+      (tbase + (tsize - 80)) = 0 := by
+    apply pfootAt_none
+    simp only [findEnt]
+    rw [if_neg (by omega)]
+  dsimp only at r2
+  simp only [List.nil_append] at r2
+  rw [hpf2] at r2
+  subst r2
+  subst hs3
+  subst hr
+  refine ⟨_, rfl, ?_, ?_⟩
+  · refine sg_init_sinv hi.wfs hbin hf.page hpos hend (by have := hf.gran; omega) hsz ?_ ?_ ?_ ?_ ?_ ?_ ?_ ?_ ?_
+    · rfl
+    · show s0.h.sbins = _; rw [hp.h]
+    · show s0.h.tbins = _; rw [hp.h]
+    · show s0.h.dv = _; rw [hp.h]; exact hdv
+    · show s0.h.dvsize = _; rw [hp.h]; exact hdvs
+    · rfl
+    · rfl
+    · rfl
+    · show (if _ then _ else _) ≤ tbase
+      split
+      · omega
+      · rename_i hc
+        simp only [Bool.or_eq_true, decide_eq_true_eq, not_or, Nat.not_lt] at hc
+        exact hc.2
+  · intro a z
+    constructor
+    · rintro ⟨e, he, hc, _⟩
+      have hm := (findEnt_some he).1
+      change e ∈ [_, _] at hm
+      simp only [List.mem_cons, List.not_mem_nil, or_false] at hm
+      rcases hm with rfl | rfl <;> cases hc
+    · rintro ⟨e, he, _⟩
+      rw [hents] at he
+      cases he
+
+/-- what a branch of `sys_alloc_place` must deliver -/
+def SgPlaceRes (s : St) (nb : Nat) : Sum St (St × Nat) → Prop
+  | .inl s1 => SInv s1 ∧ SameUsers s s1
+  | .inr (s', mem) => SInv s' ∧ mem ≠ 0 ∧ Alloc s s' nb mem
+
+/-- interface of the middle of `sys_alloc` (all four branches) -/
+def sg_place_Spec : Prop :=
+  ∀ {s s0 : St} (_ : SInv s) (_ : SgPlace s s0) {tbase tsize nb : Nat} (_ : SgFresh s tbase tsize) (_ : NbOk nb)
+    (_ : nb + 96 ≤ tsize) {r : Sum St (St × Nat)}, sys_alloc_place s0 tbase tsize nb = .ok r → SgPlaceRes s nb r
+
+/-- `sys_alloc` from its middle part: the OS call, the footprint update, the common tail -/
+theorem sg_sys_alloc_of_place (hpl : sg_place_Spec) : sys_alloc_Spec' := by
+  intro s s' hi nb mem hnb hos h
+  unfold sys_alloc at h
+  dsimp only at h
+  msimp at h
+  obtain ⟨⟨res, s1⟩, hp, h⟩ := h
+  obtain ⟨q, hq, hs1⟩ := popM_spec hp
+  dsimp only at h
+  split at h
+  · -- the OS refused
+    msimp at h
+    simp only [Prod.mk.injEq] at h
+    obtain ⟨h, hm⟩ := h
+    subst h; subst hs1; subst hm
+    exact ⟨sg_sinv_same hi ⟨rfl, rfl, rfl, rfl, rfl, rfl, rfl⟩ rfl rfl (fun _ => rfl), fun h => absurd rfl h,
+      fun _ => sg_sameUsers_of_eq rfl rfl⟩
+  · rename_i tbase
+    obtain ⟨hfresh, hpage⟩ := hos tbase q hq
+    obtain ⟨l1, l2, _⟩ := sg_sysLen hnb
+    msimp at h
+    obtain ⟨r, hr, h⟩ := h
+    subst hs1
+    have hres : SgPlaceRes s nb r := by
+      refine hpl hi ?_ ?_ hnb ?_ hr
+      · exact ⟨rfl, rfl, rfl⟩
+      · exact ⟨hfresh, hpage, l1⟩
+      · exact l2
+    cases r with
+    | inr r =>
+      obtain ⟨s2, m2⟩ := r
+      dsimp only at h
+      msimp at h
+      simp only [Prod.mk.injEq] at h
+      obtain ⟨e1, e2⟩ := h
+      subst e1; subst e2
+      obtain ⟨r1, r2, r3⟩ := hres
+      exact ⟨r1, fun _ => r3, fun h0 => absurd h0 r2⟩
+    | inl s2 =>
+      obtain ⟨r1, r2⟩ := hres
+      dsimp only at h
+      split at h
+      · rename_i hlt
+        msimp at h
+        obtain ⟨h1, e1, h2, e2, h⟩ := h
+        simp only [Prod.mk.injEq] at h
+        obtain ⟨e3, e4⟩ := h
+        subst e3; subst e4
+        obtain ⟨t1, t2⟩ := sg_top_split r1 hnb.1 hnb.2.1 hlt e1 e2
+        rw [MEM_OFFSET_eq]
+        exact ⟨t1, fun _ => sg_alloc_of_same r2 t2, fun h0 => by omega⟩
+      · msimp at h
+        simp only [Prod.mk.injEq] at h
+        obtain ⟨e3, e4⟩ := h
+        subst e3; subst e4
+        exact ⟨sg_sinv_tag r1 _, fun h0 => absurd rfl h0, fun _ => sg_sameUsers_trans r2 (sg_sameUsers_tag _ _)⟩
 
 end TinyVerif.Dl
